@@ -155,6 +155,10 @@ async def capture(world, coro, cancel_after=None):
         except asyncio.CancelledError as e:
             if cancelled_by_us:
                 return Outcome("cancelled", None, e, t0, loop.time())
+            cur = asyncio.current_task()
+            if task.done() and (cur is None or cur.cancelling() == 0):
+                # nobody cancelled the call: the library let a CancelledError of its own escape to the caller
+                return Outcome("exc", None, e, t0, loop.time())
             raise
         except (SimDeadlock, SimStepLimit):
             raise
